@@ -286,7 +286,10 @@ def monitor(eng, line, out):
         if v is not None and v["closed"] is None:
             # derived from a closed handle: a Disconnected the channel state does not explain means
             # the handle inherited the closed flag
-            if (nopen(True) > 0 or Q) and ("conv", True) not in trig and ("res", True) not in trig:
+            if (nopen(True) > 0 or Q) and ("conv", True) not in trig and ("res", True) not in trig \
+                    and not (by_future and nopen(True) == 0):
+                # (a future's Disconnected with ids still buffered and no sender left may also be the
+                #  CLOSED-woken shortcut F-08 on an open handle: undecidable from here)
                 v["closed"] = True
             return
         if nopen(True) > 0:
